@@ -1,8 +1,13 @@
 import IodineModel.Hex
 import IodineModel.Client.Loop
+import IodineModel.Client.Handshake
 /-
 Line-protocol driver of the client tunnel model (docs/CLI_PROTOCOL.md, "model ops"):
-  ccfg … | cenc e | crand v… | ctime t | start tunnel | rq rv id type rcode name0 hexbuf | rawans hex | tun hex | tick
+  ccfg … | cenc e | crand v… | ctime t | start tunnel | start handshake raw_mode autofrag fragsize |
+  rq rv id type rcode name0 hexbuf | rawans hex | tun hex | tick
+
+`start handshake` runs the handshake model (`Client/Handshake.lean`); while it is parked, `rq`/`rawans`/`tick`/`tun` go to
+`hstep`; when it has returned, the statics it reached are the ones a following `start tunnel` starts from.
 
 What the HARNESS (harness/h_cli.c) does around the client code is done here, not in the model:
 * `ccfg` = `client_init()` with an empty rand queue + the setters + direct stores; the process keeps the statics
@@ -22,6 +27,10 @@ structure St where
   configured : Bool := false
   /-- the harness's `tun_skipped` flag: set/cleared by every fed input, and (stale) also printed by `start` -/
   tunSkipped : Bool := false
+  /-- the handshake job, while `client_handshake` is running (then `s.ph = .idle` and `hs.c` is kept equal to `s.c`) -/
+  hs : Option HState := none
+  /-- the harness's `pw_buf[128]` (a shorter password leaves the tail of an earlier one behind its NUL) -/
+  pw : List Nat := List.replicate 128 0
 
 /-! ### parsing -/
 
@@ -50,6 +59,7 @@ def showEvent : CEvent → String
   | .query id ty name => s!"query {id} {ty} {toHex name}"
   | .rawtx b => s!"rawtx {toHex b}"
   | .tunw f => s!"tunw {toHex f}"
+  | .sys cmd => s!"sys {toHex cmd}"
 
 def pkSum (p : Packet) : Nat := wsum (p.data.take (if p.len ≤ 65536 then p.len else 0))
 
@@ -64,6 +74,7 @@ def digest (c : Cli) : String :=
 def showNext : Next → List String
   | .sel s => [s!"sel to={s.to} tun={b01 s.tun} dns={b01 s.dns}"]
   | .finished rv => [s!"ret {rv}", "idle"]
+  | .errx code => [s!"errx {code}", "idle"]
   | .none => ["idle"]
 
 /-- answer line: events, `ret` (if the function returned), `tunskip`, `sel …`/`idle`, digest -/
@@ -76,6 +87,15 @@ def line (evs : List CEvent) (nx : Next) (tunskip : Bool) (c : Cli) : String :=
 
 /-- feed one input to the parked thread -/
 def feed (st : St) (inp : CInput) : St × String :=
+  match st.hs with
+  | some h =>
+    let tunskip := match inp with
+      | .tun _ => true
+      | _ => false
+    let r := hstep h inp
+    ({ st with s := ⟨r.1.c, .idle⟩, hs := if r.1.pos.isSome then some r.1 else none, tunSkipped := tunskip },
+     line r.2.1 r.2.2 tunskip r.1.c)
+  | none =>
   match st.s.ph with
   | .idle => (st, "idle")
   | _ =>
@@ -150,20 +170,29 @@ def handle (st : St) (toks : List String) : Option (St × String) :=
         | ch :: _ => ch.toNat
         | [] => 32
       let c := configure st.s.c td (atoi ml) (atoi qt) dnc (atoi lazy) (atoi selto) (atoi uid) (atoi conn) (atoi e0)
-      some ({ st with s := ⟨c, .idle⟩, configured := true }, "ok")
+      some ({ st with s := ⟨c, .idle⟩, configured := true, hs := none, pw := (pw ++ 0 :: st.pw.drop (pw.length + 1)).take 128 }, "ok")
     | _, _ => some (st, "bad-op")
   | ["cenc", e] =>
     let enc : Enc := if e == "b64" then .b64 else if e == "b64u" then .b64u else if e == "b128" then .b128 else .b32
     some ({ st with s := { st.s with c := { st.s.c with dataenc := enc } } }, "ok")
   | ["ctime", t] =>
-    some ({ st with s := { st.s with c := { st.s.c with now := (atoi t).toNat } } }, "ok")
+    some ({ st with s := { st.s with c := { st.s.c with now := (atoi t).toNat } },
+                    hs := st.hs.map fun h => { h with c := { h.c with now := (atoi t).toNat } } }, "ok")
   | "crand" :: _ =>
     -- the rand queue is only read by `client_init`, which `ccfg` runs on an empty queue
     some (st, "ok")
   | ["start", "tunnel"] =>
     if !st.configured then some (st, "no-cfg") else
     let r := startTunnel { st.s.c with running := true }
-    some ({ st with s := r.1 }, line r.2.1 r.2.2 st.tunSkipped r.1.c)
+    some ({ st with s := r.1, hs := none }, line r.2.1 r.2.2 st.tunSkipped r.1.c)
+  | ["start", "handshake", raw, autofrag, fragsize] =>
+    if !st.configured then some (st, "no-cfg") else
+    -- `send_query`'s answer counting is only modelled for the tunnel phase (Client/Handshake.lean, header)
+    if st.s.c.sendcnt ≥ 0 then some (st, "unsupported") else
+    let args : HsArgs := ⟨atoi raw ≠ 0, atoi autofrag ≠ 0, Shell.toInt32 (atoi fragsize)⟩
+    let r := hsStart { st.s.c with running := true } args (st.pw.take 32) []
+    some ({ st with s := ⟨r.1.c, .idle⟩, hs := if r.1.pos.isSome then some r.1 else none },
+          line r.2.1 r.2.2 st.tunSkipped r.1.c)
   | ["tick"] => some (feed st .tick)
   | ["tun", hx] =>
     match ofHex hx with
